@@ -310,7 +310,54 @@ class Batch:
             if not t.ok:
                 res.disagree('model driver error: ' + str(t.err), line[:200], 'ok', o[:200])
             else:
-                cb(t)
+                with Guard(res, 'driver-answer', {'line': line[:200]}, where='comparison callback'):
+                    cb(t)
+
+
+class _Stop(Exception):
+    pass
+
+
+def exc_site(e):
+    """innermost frame of an exception that lies inside the tree under test: (function name, file:line) or (None, None)"""
+    import traceback
+    root = os.path.realpath(vlib.REPO) + os.sep
+    fr = [f for f in traceback.extract_tb(e.__traceback__) if os.path.realpath(f.filename).startswith(root)]
+    if not fr:
+        return None, None
+    return fr[-1].name, '%s:%d' % (os.path.relpath(os.path.realpath(fr[-1].filename), root), fr[-1].lineno)
+
+
+class Guard:
+    """`with Guard(res, tag, case):` around one unit of work (one site / parameter set / case / run).
+    An exception raised INSIDE the code under test becomes a violation keyed by the raising function and the tag
+    (`nucleationBarrier-raises:gb`), with `case` (a dict the unit keeps filling) as the replayable input, and the unit is
+    skipped; an exception of the harness itself is recorded (re-raised at the end of corr only if no violation was found).
+    Nothing aborts the whole corr()."""
+    harness_errors = []
+
+    def __init__(self, res, tag, case, where=None):
+        self.res, self.tag, self.case, self.where, self.failed = res, tag, case, where, False
+
+    def __enter__(self):
+        return self
+
+    def __exit__(self, et, e, tb):
+        if e is None or not isinstance(e, Exception) or isinstance(e, _Stop):
+            return False
+        import traceback
+        self.failed = True
+        fn, loc = exc_site(e)
+        if fn is None:
+            txt = ''.join(traceback.format_exception(et, e, tb))
+            Guard.harness_errors.append(txt)
+            print('harness error in unit %s/%s:\n%s' % (self.where, self.tag, txt), file=sys.stderr)
+        else:
+            self.res.count('impl-exception:' + fn)
+            self.res.violate('%s-raises:%s' % (fn, self.tag),
+                             '%s raised %s: %s (at %s%s)' % (fn, type(e).__name__, str(e)[:200], loc, '; ' + self.where if self.where else ''),
+                             dict(self.case), '%s: %s' % (type(e).__name__, str(e)[:300]), 'no exception')
+        return True
 
 
 def fl(x):
@@ -353,99 +400,104 @@ def geo_tol(site, k):
 def check_geometry(ctx, res, batch, N, n_points):
     cl = classes(N)
     for site in SITES:
-        d = cl[site]()
-        ks = [rand_k(ctx.rng, site, allow_above=True) for _ in range(n_points)]
-        karr = np.array(ks, dtype=float)
-        with np.errstate(all='ignore'):
-            inner = {m: None for m in FACTORS}
-            pub_arr = {m: np.atleast_1d(getattr(d, m)(karr.copy(), setInvalidToNan=False)) for m in PUBLIC}
-            pub_nan = {m: np.atleast_1d(getattr(d, m)(karr.copy())) for m in PUBLIC}
-        for i, k in enumerate(ks):
-            below = k < KMAX[site]
-            case = {'kind': 'geo', 'site': site, 'k': k}
-            res.case(('geo', site, k), k > 0)
-            res.count('geo:' + site + (':below' if below else ':at-or-above-limit'))
+        ginfo = {'kind': 'geo', 'site': site}
+        with Guard(res, site, ginfo, where='description, array call'):
+            d = cl[site]()
+            ks = [rand_k(ctx.rng, site, allow_above=True) for _ in range(n_points)]
+            karr = np.array(ks, dtype=float)
+            ginfo['ks'] = ks
             with np.errstate(all='ignore'):
-                inn = [fl(getattr(d, m)(np.array([k]))) for m in ['_gbRemoval', '_areaFactor', '_volumeFactor', '_areaRemoval']] if below else None
-                scal = [fl(getattr(d, m)(k, setInvalidToNan=False)) for m in PUBLIC]
-            arrv = [float(pub_arr[m][i]) for m in PUBLIC]
-            nanv = [float(pub_nan[m][i]) for m in PUBLIC]
-            if i < 1:
-                res.sample(dict(case, factors=scal))
-            # scalar call == array call == inner formula under the mask
-            if not vlib.all_close(scal, arrv, 1e-12):
-                res.violate('geo-scalar-vs-array', 'scalar and array calls of the description differ', case, scal, arrv)
-            want = inn if below else [-1.0] * 4
-            if not vlib.all_close(scal, want, 1e-12):
-                res.violate('geo-wrapper-mask', 'public factor is not the inner formula below the limit / the sentinel above', case, scal, want)
-            if below and not vlib.all_close(nanv, inn, 1e-12) or (not below and not all(math.isnan(v) for v in nanv)):
-                res.violate('geo-wrapper-nan', 'default call is not the formula below the limit / NaN above', case, nanv, want)
-            if below:
-                def cb(t, case=case, inn=inn):
-                    got = t.flts()
-                    for name, a, b in zip(PUBLIC, inn, got):
-                        if not close(a, b, 1e-9, GEO_ABS):
-                            res.disagree('generated %s_%s vs kawin' % (case['site'], name), case, a, b)
-                batch.add('gen.geo %s %s' % (site, f2b(k)), cb)
+                inner = {m: None for m in FACTORS}
+                pub_arr = {m: np.atleast_1d(getattr(d, m)(karr.copy(), setInvalidToNan=False)) for m in PUBLIC}
+                pub_nan = {m: np.atleast_1d(getattr(d, m)(karr.copy())) for m in PUBLIC}
+            for i, k in enumerate(ks):
+                with Guard(res, site, {'kind': 'geo', 'site': site, 'k': k}, where='description, scalar call'):
+                    below = k < KMAX[site]
+                    case = {'kind': 'geo', 'site': site, 'k': k}
+                    res.case(('geo', site, k), k > 0)
+                    res.count('geo:' + site + (':below' if below else ':at-or-above-limit'))
+                    with np.errstate(all='ignore'):
+                        inn = [fl(getattr(d, m)(np.array([k]))) for m in ['_gbRemoval', '_areaFactor', '_volumeFactor', '_areaRemoval']] if below else None
+                        scal = [fl(getattr(d, m)(k, setInvalidToNan=False)) for m in PUBLIC]
+                    arrv = [float(pub_arr[m][i]) for m in PUBLIC]
+                    nanv = [float(pub_nan[m][i]) for m in PUBLIC]
+                    if i < 1:
+                        res.sample(dict(case, factors=scal))
+                    # scalar call == array call == inner formula under the mask
+                    if not vlib.all_close(scal, arrv, 1e-12):
+                        res.violate('geo-scalar-vs-array', 'scalar and array calls of the description differ', case, scal, arrv)
+                    want = inn if below else [-1.0] * 4
+                    if not vlib.all_close(scal, want, 1e-12):
+                        res.violate('geo-wrapper-mask', 'public factor is not the inner formula below the limit / the sentinel above', case, scal, want)
+                    if below and not vlib.all_close(nanv, inn, 1e-12) or (not below and not all(math.isnan(v) for v in nanv)):
+                        res.violate('geo-wrapper-nan', 'default call is not the formula below the limit / NaN above', case, nanv, want)
+                    if below:
+                        def cb(t, case=case, inn=inn):
+                            got = t.flts()
+                            for name, a, b in zip(PUBLIC, inn, got):
+                                if not close(a, b, 1e-9, GEO_ABS):
+                                    res.disagree('generated %s_%s vs kawin' % (case['site'], name), case, a, b)
+                        batch.add('gen.geo %s %s' % (site, f2b(k)), cb)
 
-            def cb2(t, case=case, scal=scal, below=below, site=site):
-                mb = t.bool(); mm = t.flt(); got = t.flts()
-                if mb != below:
-                    res.disagree('mask k < maxRatio', case, below, mb)
-                if not close(mm, float(cl[site].maxRatio), 1e-15):
-                    res.disagree('maxRatio', case, float(cl[site].maxRatio), mm)
-                for name, a, b in zip(PUBLIC, scal, got):
-                    if not close(a, b, 1e-9, GEO_ABS):
-                        res.disagree('wrapper %s (setInvalidToNan=False)' % name, case, a, b)
-            batch.add('desc.val %s %s' % (site, f2b(k)), cb2)
-            # ---- direct oracle: identity, sign
-            if below:
-                rem, area, vol, arem = scal
-                lhs, rhs = area - 2 * k * rem, 3 * vol
-                if math.isfinite(lhs) and math.isfinite(rhs) and abs(lhs - rhs) > geo_tol(site, k) + 1e-9 * abs(rhs):
-                    res.violate('geo-identity-' + site, 'area - 2k*gbRemoval != 3*volume', case, lhs, rhs)
-                if site in ('edge', 'corner') and 1 - k / KMAX[site] < 1e-12 and not all(math.isfinite(v) for v in scal[:3]):
-                    res.near_tie_skipped += 1           # within rounding of the singular limit
-                elif min(rem, area, vol) < -geo_tol(site, k) or not all(math.isfinite(v) for v in scal[:3]):
-                    res.violate('geo-negative-' + site, 'a geometric factor is negative or not finite below the limit', case, scal, '>= 0')
-        # sphere values at k = 0
-        with np.errstate(all='ignore'):
-            a0, v0 = fl(d.areaFactor(0.0)), fl(d.volumeFactor(0.0))
-        if not close(a0, 4 * math.pi, 1e-12) or not close(v0, 4 * math.pi / 3, 1e-12):
-            res.violate('geo-sphere-' + site, 'area/volume factor at k=0 are not the sphere values', {'kind': 'geo', 'site': site, 'k': 0.0}, [a0, v0], [4 * math.pi, 4 * math.pi / 3])
+                    def cb2(t, case=case, scal=scal, below=below, site=site):
+                        mb = t.bool(); mm = t.flt(); got = t.flts()
+                        if mb != below:
+                            res.disagree('mask k < maxRatio', case, below, mb)
+                        if not close(mm, float(cl[site].maxRatio), 1e-15):
+                            res.disagree('maxRatio', case, float(cl[site].maxRatio), mm)
+                        for name, a, b in zip(PUBLIC, scal, got):
+                            if not close(a, b, 1e-9, GEO_ABS):
+                                res.disagree('wrapper %s (setInvalidToNan=False)' % name, case, a, b)
+                    batch.add('desc.val %s %s' % (site, f2b(k)), cb2)
+                    # ---- direct oracle: identity, sign
+                    if below:
+                        rem, area, vol, arem = scal
+                        lhs, rhs = area - 2 * k * rem, 3 * vol
+                        if math.isfinite(lhs) and math.isfinite(rhs) and abs(lhs - rhs) > geo_tol(site, k) + 1e-9 * abs(rhs):
+                            res.violate('geo-identity-' + site, 'area - 2k*gbRemoval != 3*volume', case, lhs, rhs)
+                        if site in ('edge', 'corner') and 1 - k / KMAX[site] < 1e-12 and not all(math.isfinite(v) for v in scal[:3]):
+                            res.near_tie_skipped += 1           # within rounding of the singular limit
+                        elif min(rem, area, vol) < -geo_tol(site, k) or not all(math.isfinite(v) for v in scal[:3]):
+                            res.violate('geo-negative-' + site, 'a geometric factor is negative or not finite below the limit', case, scal, '>= 0')
+            # sphere values at k = 0
+            with np.errstate(all='ignore'):
+                a0, v0 = fl(d.areaFactor(0.0)), fl(d.volumeFactor(0.0))
+            if not close(a0, 4 * math.pi, 1e-12) or not close(v0, 4 * math.pi / 3, 1e-12):
+                res.violate('geo-sphere-' + site, 'area/volume factor at k=0 are not the sphere values', {'kind': 'geo', 'site': site, 'k': 0.0}, [a0, v0], [4 * math.pi, 4 * math.pi / 3])
 
 
 def check_grid(ctx, res, N, n_grid):
     """fine grid up to each limit: sign and monotonicity (proved for the boundary, MONITORED for edge and corner)"""
     cl = classes(N)
     for site in ('gb', 'edge', 'corner'):
-        kmax = KMAX[site]
-        off = ctx.rng.random()
-        ks = sorted(set([kmax * (i + off) / n_grid for i in range(n_grid)] + [kmax * (1 - 10.0 ** (-j)) for j in range(1, 13)]
-                        + [10.0 ** (-j) for j in range(2, 13)] + [0.0]))
-        ks = np.array([k for k in ks if k < kmax])
-        d = cl[site]()
-        with np.errstate(all='ignore'):
-            rem, area, vol = d.gbRemoval(ks), d.areaFactor(ks), d.volumeFactor(ks)
-        res.count('grid:' + site, len(ks))
-        res.case(('grid', site, len(ks), off), True)
-        tol = np.array([geo_tol(site, k) for k in ks])
-        bad = np.nonzero(~(np.isfinite(rem) & np.isfinite(area) & np.isfinite(vol)) | (rem < -tol) | (area < -tol) | (vol < -tol))[0]
-        if len(bad):
-            i = int(bad[0])
-            res.violate('geo-negative-' + site, 'a geometric factor is negative / not finite on the grid', {'kind': 'geo', 'site': site, 'k': float(ks[i])},
-                        [float(rem[i]), float(area[i]), float(vol[i])], '>= 0')
-        dv = np.diff(vol)
-        inc = np.nonzero(dv > tol[1:] + tol[:-1])[0]
-        if len(inc):
-            i = int(inc[0])
-            res.violate('geo-volume-not-decreasing-' + site, 'volume factor increases with k', {'kind': 'geo', 'site': site, 'k': float(ks[i]), 'k2': float(ks[i + 1])},
-                        [float(vol[i]), float(vol[i + 1])], 'decreasing')
-        if site == 'gb':
-            want = (2 * math.pi / 3) * (1 - ks) ** 2 * (2 + ks)
-            j = np.nonzero(np.abs(vol - want) > 1e-11)[0]
-            if len(j):
-                res.violate('geo-gb-closed-form', 'boundary volume factor != (2pi/3)(1-k)^2(2+k)', {'kind': 'geo', 'site': site, 'k': float(ks[j[0]])}, float(vol[j[0]]), float(want[j[0]]))
+        with Guard(res, site, {'kind': 'grid', 'site': site, 'n_grid': n_grid}, where='description on the grid'):
+            kmax = KMAX[site]
+            off = ctx.rng.random()
+            ks = sorted(set([kmax * (i + off) / n_grid for i in range(n_grid)] + [kmax * (1 - 10.0 ** (-j)) for j in range(1, 13)]
+                            + [10.0 ** (-j) for j in range(2, 13)] + [0.0]))
+            ks = np.array([k for k in ks if k < kmax])
+            d = cl[site]()
+            with np.errstate(all='ignore'):
+                rem, area, vol = d.gbRemoval(ks), d.areaFactor(ks), d.volumeFactor(ks)
+            res.count('grid:' + site, len(ks))
+            res.case(('grid', site, len(ks), off), True)
+            tol = np.array([geo_tol(site, k) for k in ks])
+            bad = np.nonzero(~(np.isfinite(rem) & np.isfinite(area) & np.isfinite(vol)) | (rem < -tol) | (area < -tol) | (vol < -tol))[0]
+            if len(bad):
+                i = int(bad[0])
+                res.violate('geo-negative-' + site, 'a geometric factor is negative / not finite on the grid', {'kind': 'geo', 'site': site, 'k': float(ks[i])},
+                            [float(rem[i]), float(area[i]), float(vol[i])], '>= 0')
+            dv = np.diff(vol)
+            inc = np.nonzero(dv > tol[1:] + tol[:-1])[0]
+            if len(inc):
+                i = int(inc[0])
+                res.violate('geo-volume-not-decreasing-' + site, 'volume factor increases with k', {'kind': 'geo', 'site': site, 'k': float(ks[i]), 'k2': float(ks[i + 1])},
+                            [float(vol[i]), float(vol[i + 1])], 'decreasing')
+            if site == 'gb':
+                want = (2 * math.pi / 3) * (1 - ks) ** 2 * (2 + ks)
+                j = np.nonzero(np.abs(vol - want) > 1e-11)[0]
+                if len(j):
+                    res.violate('geo-gb-closed-form', 'boundary volume factor != (2pi/3)(1-k)^2(2+k)', {'kind': 'geo', 'site': site, 'k': float(ks[j[0]])}, float(vol[j[0]]), float(want[j[0]]))
 
 
 def make_prec(ctx, N, site, shapes=True):
@@ -493,70 +545,90 @@ def rand_dG(rng):
 
 
 def check_barrier(ctx, res, batch, N, R, n_prec, n_dg):
-    for _ in range(n_prec):
-        site = ctx.rng.choice(SITES)
-        prec, d = make_prec(ctx, N, site)
-        isGB = KMAX[site] < math.inf
-        dGs = np.array([rand_dG(ctx.rng) for _ in range(n_dg)])
+    def barrier_call(dG, prec, ar):
         with np.errstate(all='ignore'), warnings.catch_warnings():
             warnings.simplefilter('ignore')
-            Rc, Gc = R.nucleationBarrier(dGs.copy(), prec, aspectRatio=d['ar'])
-            Rc, Gc = np.atleast_1d(Rc), np.atleast_1d(Gc)
+            Rc, Gc = R.nucleationBarrier(dG, prec, aspectRatio=ar)
+        return np.atleast_1d(Rc).astype(float), np.atleast_1d(Gc).astype(float)
+
+    for _ in range(n_prec):
+        site = ctx.rng.choice(SITES)
+        isGB = KMAX[site] < math.inf
+        info = {'kind': 'barrier-array', 'site': site}
+        unit = Guard(res, site, info, where='precipitate set-up / array call of nucleationBarrier')
+        with unit:
+            prec, d = make_prec(ctx, N, site)
+            dGs = np.array([rand_dG(ctx.rng) for _ in range(n_dg)])
+            info.update(d, dGs=dGs.tolist())
+            Rc, Gc = barrier_call(dGs.copy(), prec, d['ar'])
+        if unit.failed:
+            continue
+        # an array without any positive driving force (the masks select nothing): zeros, no exception
+        npos = np.array([-abs(v) if ctx.rng.random() < 0.7 else 0.0 for v in dGs[:3]])
+        with Guard(res, site, dict(info, dGs=npos.tolist()), where='array call of nucleationBarrier without a positive driving force'):
+            Rn, Gn = barrier_call(npos.copy(), prec, d['ar'])
+            res.count('barrier:array-without-positive-dG')
+            if np.any(Rn != 0) or np.any(Gn != 0):
+                res.violate('barrier-nonzero-at-nonpositive-dG', 'Rcrit/Gcrit not zero for an array of non-positive driving forces', dict(info, dGs=npos.tolist()), [Rn.tolist(), Gn.tolist()], 'zeros')
+        # scalar call per entry == array call (every entry; the array is part of the failing input)
+        with Guard(res, site, info, where='scalar calls of nucleationBarrier'):
+            sc = [barrier_call(float(v), prec, d['ar']) for v in dGs]
+            Rs1, Gs1 = np.array([fl(a) for a, _ in sc]), np.array([fl(b) for _, b in sc])
+            if len(set(v for v in dGs.tolist() if v > 0)) >= 2:
+                res.count('barrier:array>=2-distinct-positive-dG:' + ('gb-kind' if isGB else 'bulk-kind'))
+            if not (vlib.all_close(Rs1, Rc, 1e-13) and vlib.all_close(Gs1, Gc, 1e-13)):
+                res.violate('barrier-scalar-vs-array:' + site, 'array call of nucleationBarrier differs from the scalar calls entry by entry',
+                            dict(info), {'Rcrit': Rc.tolist(), 'Gcrit': Gc.tolist()}, {'Rcrit': Rs1.tolist(), 'Gcrit': Gs1.tolist()})
         for i, dG in enumerate(dGs):
-            case = dict(d, kind='barrier', dG=float(dG))
+            case = dict(d, kind='barrier', dG=float(dG), dGs=dGs.tolist(), index=i)
             res.case(('barrier', site, d['gamma'], d['k'], d['Rmin'], float(dG)), dG > 0)
             res.count('barrier:' + ('gb-kind' if isGB else 'bulk-kind') + (':dG>0' if dG > 0 else ':dG<=0'))
             r, g = float(Rc[i]), float(Gc[i])
-            if i < 2:       # scalar call
-                with np.errstate(all='ignore'), warnings.catch_warnings():
-                    warnings.simplefilter('ignore')
-                    rs, gs = R.nucleationBarrier(float(dG), prec, aspectRatio=d['ar'])
-                if not (close(fl(rs), r, 1e-13) and close(fl(gs), g, 1e-13)):
-                    res.violate('barrier-scalar-vs-array', 'scalar and array calls of nucleationBarrier differ', case, [fl(rs), fl(gs)], [r, g])
-            if isGB and dG > 0:
-                # NucleationBarrierParameters.Rcrit / Gcrit directly, scalar and array argument
-                with np.errstate(all='ignore'):
-                    r1 = fl(prec.nucleation.Rcrit(dG)); r2 = fl(prec.nucleation.Rcrit(np.array([dG, 2 * dG]))[0])
-                    g1 = fl(prec.nucleation.Gcrit(dG, r)); g2 = fl(prec.nucleation.Gcrit(np.array([dG, dG]), np.array([r, r]))[1])
+            with Guard(res, site, case, where='barrier, one entry'):
+                if isGB and dG > 0:
+                    # NucleationBarrierParameters.Rcrit / Gcrit directly, scalar and array argument
+                    with np.errstate(all='ignore'):
+                        r1 = fl(prec.nucleation.Rcrit(dG)); r2 = fl(prec.nucleation.Rcrit(np.array([dG, 2 * dG]))[0])
+                        g1 = fl(prec.nucleation.Gcrit(dG, r)); g2 = fl(prec.nucleation.Gcrit(np.array([dG, dG]), np.array([r, r]))[1])
 
-                def cbn(t, case=case, r1=r1, g1=g1, r2=r2, g2=g2):
+                    def cbn(t, case=case, r1=r1, g1=g1, r2=r2, g2=g2):
+                        got = t.flts()
+                        sc = abs(case['a'] * case['gamma']) * case['Rmin'] ** 2
+                        if not (close(r1, got[0], 1e-9) and close(r2, got[0], 1e-9)):
+                            res.disagree('generated nbp_Rcrit vs kawin', case, [r1, r2], got[0])
+                        if not (close(g1, got[1], 1e-9, sc) and close(g2, got[1], 1e-9, sc)):
+                            res.disagree('generated nbp_Gcrit vs kawin', case, [g1, g2], got[1])
+                        if not close(case['k'], got[2], 1e-12):
+                            res.disagree('generated gbRatio vs kawin', case, case['k'], got[2])
+                    batch.add('gen.nbp %s' % ' '.join(f2b(v) for v in (d['a'], d['b'], d['c'], d['gamma'], d['gbE'], dG, r)), cbn)
+
+                def cb(t, case=case, r=r, g=g):
                     got = t.flts()
-                    sc = abs(case['a'] * case['gamma']) * case['Rmin'] ** 2
-                    if not (close(r1, got[0], 1e-9) and close(r2, got[0], 1e-9)):
-                        res.disagree('generated nbp_Rcrit vs kawin', case, [r1, r2], got[0])
-                    if not (close(g1, got[1], 1e-9, sc) and close(g2, got[1], 1e-9, sc)):
-                        res.disagree('generated nbp_Gcrit vs kawin', case, [g1, g2], got[1])
-                    if not close(case['k'], got[2], 1e-12):
-                        res.disagree('generated gbRatio vs kawin', case, case['k'], got[2])
-                batch.add('gen.nbp %s' % ' '.join(f2b(v) for v in (d['a'], d['b'], d['c'], d['gamma'], d['gbE'], dG, r)), cbn)
-
-            def cb(t, case=case, r=r, g=g):
-                got = t.flts()
-                sc = abs(case['a'] * case['gamma']) * max(r, case['Rmin']) ** 2
-                if not close(r, got[0], 1e-9) or not close(g, got[1], 1e-9, sc * 1e-3):
-                    res.disagree('nucleationBarrier', case, [r, g], got)
-            batch.add('nr.barrier %s %s' % (vlib.enc_bool(isGB), ' '.join(f2b(v) for v in (d['f'], d['gamma'], d['a'], d['b'], d['c'], d['gbE'], d['Rmin'], dG))), cb)
-            # ---- direct oracle
-            if dG > 0:
-                if not (math.isfinite(r) and math.isfinite(g)):
-                    res.violate('barrier-not-finite', 'Rcrit/Gcrit not finite for positive driving force', case, [r, g], 'finite')
-                elif r < d['Rmin']:
-                    res.violate('barrier-rcrit-below-rmin', 'Rcrit < Rmin for positive driving force', case, r, d['Rmin'])
-                elif g < 0:
-                    if isGB and dG * d['Rmin'] > 3 * d['gamma']:
-                        res.violate('gcrit-negative-gb-rmin', 'grain-boundary site types: Gcrit < 0 when dG*Rmin > 3*gamma (barrier evaluated at the clamped radius)', case, g, '>= 0')
-                    else:
-                        res.violate('barrier-gcrit-negative', 'Gcrit < 0 for positive driving force', case, g, '>= 0')
-                if isGB and 2 * d['gamma'] / dG >= d['Rmin'] and d['c'] > 1e-9:
-                    # unclamped: the sphere's radius, barrier = volume/(4pi/3) * spherical barrier
-                    rs = 2 * d['gamma'] / dG
-                    gs = d['c'] / (4 * math.pi / 3) * (4 * math.pi / 3) * d['gamma'] * rs ** 2
-                    tol = 1e-9 + 1e-12 / d['c']          # the factors carry an absolute error ~1e-16 each
-                    if not close(r, rs, tol) or not close(g, gs, 10 * tol):
-                        res.violate('barrier-not-sphere-' + site, 'Rcrit != 2*gamma/dG or Gcrit != (volume/(4pi/3)) * spherical barrier', case, [r, g], [rs, gs])
-            else:
-                if r != 0 or g != 0:
-                    res.violate('barrier-nonzero-at-nonpositive-dG', 'Rcrit/Gcrit not zero for dG <= 0', case, [r, g], [0, 0])
+                    sc = abs(case['a'] * case['gamma']) * max(r, case['Rmin']) ** 2
+                    if not close(r, got[0], 1e-9) or not close(g, got[1], 1e-9, sc * 1e-3):
+                        res.disagree('nucleationBarrier', case, [r, g], got)
+                batch.add('nr.barrier %s %s' % (vlib.enc_bool(isGB), ' '.join(f2b(v) for v in (d['f'], d['gamma'], d['a'], d['b'], d['c'], d['gbE'], d['Rmin'], dG))), cb)
+                # ---- direct oracle
+                if dG > 0:
+                    if not (math.isfinite(r) and math.isfinite(g)):
+                        res.violate('barrier-not-finite', 'Rcrit/Gcrit not finite for positive driving force', case, [r, g], 'finite')
+                    elif r < d['Rmin']:
+                        res.violate('barrier-rcrit-below-rmin', 'Rcrit < Rmin for positive driving force', case, r, d['Rmin'])
+                    elif g < 0:
+                        if isGB and dG * d['Rmin'] > 3 * d['gamma']:
+                            res.violate('gcrit-negative-gb-rmin', 'grain-boundary site types: Gcrit < 0 when dG*Rmin > 3*gamma (barrier evaluated at the clamped radius)', case, g, '>= 0')
+                        else:
+                            res.violate('barrier-gcrit-negative', 'Gcrit < 0 for positive driving force', case, g, '>= 0')
+                    if isGB and 2 * d['gamma'] / dG >= d['Rmin'] and d['c'] > 1e-9:
+                        # unclamped: the sphere's radius, barrier = volume/(4pi/3) * spherical barrier
+                        rs = 2 * d['gamma'] / dG
+                        gs = d['c'] / (4 * math.pi / 3) * (4 * math.pi / 3) * d['gamma'] * rs ** 2
+                        tol = 1e-9 + 1e-12 / d['c']          # the factors carry an absolute error ~1e-16 each
+                        if not close(r, rs, tol) or not close(g, gs, 10 * tol):
+                            res.violate('barrier-not-sphere-' + site, 'Rcrit != 2*gamma/dG or Gcrit != (volume/(4pi/3)) * spherical barrier', case, [r, g], [rs, gs])
+                else:
+                    if r != 0 or g != 0:
+                        res.violate('barrier-nonzero-at-nonpositive-dG', 'Rcrit/Gcrit not zero for dG <= 0', case, [r, g], [0, 0])
 
 
 def stub_therm(seed):
@@ -586,129 +658,140 @@ def check_chain(ctx, res, batch, N, R, n_prec, n_pts):
     rng = ctx.rng
     for ip in range(n_prec):
         site = rng.choice(SITES)
-        prec, d = make_prec(ctx, N, site, shapes=False)
-        matrix = MatrixParameters(['B'])
-        a0 = 10 ** rng.uniform(-9.6, -9.2)
-        matrix.volume.setVolume(a0, 'a', 4)
-        matrix.theta = rng.choice([2, 2, 1.0, 4 * math.pi])
-        seed = rng.randint(0, 5)
-        therm = stub_therm(seed)
-        n = n_pts
-        T = np.array([rng.uniform(300, 1500) for _ in range(n)])
-        x = np.array([10 ** rng.uniform(-5, -1) for _ in range(n)])
-        Rc = np.array([rng.choice([0.0, d['Rmin'], 10 ** rng.uniform(-10, -7)]) for _ in range(n)])
-        Rc[0] = 10 ** rng.uniform(-10, -8)
-        base = dict(d, kind='chain', a0=a0, theta=matrix.theta, thermseed=seed)
-        with np.errstate(all='ignore'), warnings.catch_warnings():
-            warnings.simplefilter('ignore')
-            Z = np.atleast_1d(R.zeldovich(T, Rc, prec))
-            b1 = np.atleast_1d(R.betaBinary1(therm, x, T, Rc, matrix, prec))
-            xa, xb = 10 ** rng.uniform(-5, -2), rng.uniform(0.2, 0.8)
-            b2 = np.atleast_1d(R.betaBinary2(therm, x, T, Rc, matrix, prec, xEqAlpha=xa, xEqBeta=xb))
-            b2n = np.atleast_1d(R.betaBinary2(therm, x, T, Rc, matrix, prec))
-            x2 = np.stack([x, 0.5 * x], axis=-1)
-            bm = np.atleast_1d(R.betaMulti(therm, x2, T, Rc, matrix, prec))
-            beta = b1.copy()
-            Zt = Z.copy()
-            if n > 2:
-                Zt[1] = 0.0
-            tau = np.atleast_1d(R.incubationTime(beta, Zt, matrix))
-            G = np.array([rng.choice([0.0, 10 ** rng.uniform(-21, -18) * 5]) for _ in range(n)])
-            G[0] = kB * T[0] * rng.uniform(1, 60)
-            tauv = np.where(np.isfinite(tau), tau, 0.0)
-            t1 = 10 ** rng.uniform(-2, 5)
-            t2 = t1 * rng.uniform(1.0, 50.0)
-            nr1 = np.atleast_1d(R.nucleationRate(Z, beta, G, T, tauv, time=t1))
-            nr2 = np.atleast_1d(R.nucleationRate(Z, beta, G, T, tauv, time=t2))
-            nri = np.atleast_1d(R.nucleationRate(Z, beta, G, T, tauv))
-            rad = np.atleast_1d(R.nucleationRadius(T, Rc, prec))
-            D = np.atleast_2d(therm.getTracerDiffusivity(x, T))
+        base = {'kind': 'chain', 'site': site}
+        unit = Guard(res, site, base, where='NucleationRate functions, array calls')
+        prec, d = None, None
+        with unit:
+            prec, d = make_prec(ctx, N, site, shapes=False)
+            base.update(d)
+            matrix = MatrixParameters(['B'])
+            a0 = 10 ** rng.uniform(-9.6, -9.2)
+            matrix.volume.setVolume(a0, 'a', 4)
+            matrix.theta = rng.choice([2, 2, 1.0, 4 * math.pi])
+            seed = rng.randint(0, 5)
+            therm = stub_therm(seed)
+            n = n_pts
+            T = np.array([rng.uniform(300, 1500) for _ in range(n)])
+            x = np.array([10 ** rng.uniform(-5, -1) for _ in range(n)])
+            Rc = np.array([rng.choice([0.0, d['Rmin'], 10 ** rng.uniform(-10, -7)]) for _ in range(n)])
+            Rc[0] = 10 ** rng.uniform(-10, -8)
+            base.update(a0=a0, theta=matrix.theta, thermseed=seed, Ts=T.tolist(), xs=x.tolist(), Rcrits=Rc.tolist())
+            with np.errstate(all='ignore'), warnings.catch_warnings():
+                warnings.simplefilter('ignore')
+                Z = np.atleast_1d(R.zeldovich(T, Rc, prec))
+                b1 = np.atleast_1d(R.betaBinary1(therm, x, T, Rc, matrix, prec))
+                xa, xb = 10 ** rng.uniform(-5, -2), rng.uniform(0.2, 0.8)
+                b2 = np.atleast_1d(R.betaBinary2(therm, x, T, Rc, matrix, prec, xEqAlpha=xa, xEqBeta=xb))
+                b2n = np.atleast_1d(R.betaBinary2(therm, x, T, Rc, matrix, prec))
+                x2 = np.stack([x, 0.5 * x], axis=-1)
+                bm = np.atleast_1d(R.betaMulti(therm, x2, T, Rc, matrix, prec))
+                beta = b1.copy()
+                Zt = Z.copy()
+                if n > 2:
+                    Zt[1] = 0.0
+                tau = np.atleast_1d(R.incubationTime(beta, Zt, matrix))
+                G = np.array([rng.choice([0.0, 10 ** rng.uniform(-21, -18) * 5]) for _ in range(n)])
+                G[0] = kB * T[0] * rng.uniform(1, 60)
+                tauv = np.where(np.isfinite(tau), tau, 0.0)
+                t1 = 10 ** rng.uniform(-2, 5)
+                t2 = t1 * rng.uniform(1.0, 50.0)
+                nr1 = np.atleast_1d(R.nucleationRate(Z, beta, G, T, tauv, time=t1))
+                nr2 = np.atleast_1d(R.nucleationRate(Z, beta, G, T, tauv, time=t2))
+                nri = np.atleast_1d(R.nucleationRate(Z, beta, G, T, tauv))
+                rad = np.atleast_1d(R.nucleationRadius(T, Rc, prec))
+                D = np.atleast_2d(therm.getTracerDiffusivity(x, T))
+        if unit.failed:
+            continue
         for i in range(n):
             case = dict(base, T=float(T[i]), x=float(x[i]), Rcrit=float(Rc[i]), G=float(G[i]), t1=t1, t2=t2, xa=xa, xb=xb)
-            nontriv = Rc[i] != 0 and G[i] != 0
-            res.case(('chain', site, d['gamma'], d['k'], float(T[i]), float(Rc[i]), float(G[i])), nontriv)
-            res.count('chain:' + ('R=0' if Rc[i] == 0 else 'R!=0') + (',G=0' if G[i] == 0 else ',G!=0'))
-            if i == 0:      # scalar calls
-                with np.errstate(all='ignore'), warnings.catch_warnings():
-                    warnings.simplefilter('ignore')
-                    sc = [fl(R.zeldovich(T[0], Rc[0], prec)), fl(R.betaBinary1(therm, x[0], T[0], Rc[0], matrix, prec)),
-                          fl(R.betaBinary2(therm, x[0], T[0], Rc[0], matrix, prec, xEqAlpha=xa, xEqBeta=xb)),
-                          fl(R.betaMulti(therm, x2[0], T[0], Rc[0], matrix, prec)),
-                          fl(R.incubationTime(beta[0], Zt[0], matrix)), fl(R.nucleationRate(Z[0], beta[0], G[0], T[0], tauv[0], time=t1)),
-                          fl(R.nucleationRadius(T[0], Rc[0], prec))]
-                ar = [Z[0], b1[0], b2[0], bm[0], tau[0], nr1[0], rad[0]]
-                if not vlib.all_close(sc, ar, 1e-13):
-                    res.violate('chain-scalar-vs-array', 'scalar and array calls of the NucleationRate functions differ', case, sc, [float(v) for v in ar])
-                res.sample(dict(case, Z=float(Z[0]), beta=float(b1[0]), tau=float(tau[0]), rate=float(nr1[0])))
-            imp = therm.impingementFactor(x2[i], T[i])
-            xan, xbn = therm.getInterfacialComposition(T[i], 0, 'X')
+            with Guard(res, site, case, where='NucleationRate functions, one entry'):
+                nontriv = Rc[i] != 0 and G[i] != 0
+                res.case(('chain', site, d['gamma'], d['k'], float(T[i]), float(Rc[i]), float(G[i])), nontriv)
+                res.count('chain:' + ('R=0' if Rc[i] == 0 else 'R!=0') + (',G=0' if G[i] == 0 else ',G!=0'))
+                if i == 0:      # scalar calls
+                    with np.errstate(all='ignore'), warnings.catch_warnings():
+                        warnings.simplefilter('ignore')
+                        sc = [fl(R.zeldovich(T[0], Rc[0], prec)), fl(R.betaBinary1(therm, x[0], T[0], Rc[0], matrix, prec)),
+                              fl(R.betaBinary2(therm, x[0], T[0], Rc[0], matrix, prec, xEqAlpha=xa, xEqBeta=xb)),
+                              fl(R.betaMulti(therm, x2[0], T[0], Rc[0], matrix, prec)),
+                              fl(R.incubationTime(beta[0], Zt[0], matrix)), fl(R.nucleationRate(Z[0], beta[0], G[0], T[0], tauv[0], time=t1)),
+                              fl(R.nucleationRadius(T[0], Rc[0], prec))]
+                    ar = [Z[0], b1[0], b2[0], bm[0], tau[0], nr1[0], rad[0]]
+                    if not vlib.all_close(sc, ar, 1e-13):
+                        res.violate('chain-scalar-vs-array', 'scalar and array calls of the NucleationRate functions differ', case, sc, [float(v) for v in ar])
+                    res.sample(dict(case, Z=float(Z[0]), beta=float(b1[0]), tau=float(tau[0]), rate=float(nr1[0])))
+                imp = therm.impingementFactor(x2[i], T[i])
+                xan, xbn = therm.getInterfacialComposition(T[i], 0, 'X')
 
-            def mk(name, want, case=case):
-                def cb(t):
-                    got = t.flt()
-                    if not close(want, got, 1e-9):
-                        res.disagree(name, case, float(want), got)
-                return cb
-            batch.add('nr.zeld ' + ' '.join(f2b(v) for v in (kB, NA, d['c'], d['Vm'], d['gamma'], T[i], Rc[i])), mk('zeldovich', Z[i]))
-            batch.add('nr.beta1 ' + ' '.join(f2b(v) for v in (d['a'], a0, x[i], D[i, 1], Rc[i])), mk('betaBinary1', b1[i]))
-            batch.add('nr.beta2 ' + ' '.join(f2b(v) for v in (d['a'], a0, xa, xb, D[i, 0], D[i, 1], Rc[i])), mk('betaBinary2', b2[i]))
-            batch.add('nr.beta2 ' + ' '.join(f2b(v) for v in (d['a'], a0, fl(xan), fl(xbn), D[i, 0], D[i, 1], Rc[i])), mk('betaBinary2 (interfacial composition from therm)', b2n[i]))
-            batch.add('nr.betam ' + ' '.join(f2b(v) for v in (d['a'], a0, imp, Rc[i])), mk('betaMulti', bm[i]))
-            if math.isfinite(tau[i]):
-                batch.add('nr.tau ' + ' '.join(f2b(v) for v in (matrix.theta, beta[i], Zt[i])), mk('incubationTime', tau[i]))
+                def mk(name, want, case=case):
+                    def cb(t):
+                        got = t.flt()
+                        if not close(want, got, 1e-9):
+                            res.disagree(name, case, float(want), got)
+                    return cb
+                batch.add('nr.zeld ' + ' '.join(f2b(v) for v in (kB, NA, d['c'], d['Vm'], d['gamma'], T[i], Rc[i])), mk('zeldovich', Z[i]))
+                batch.add('nr.beta1 ' + ' '.join(f2b(v) for v in (d['a'], a0, x[i], D[i, 1], Rc[i])), mk('betaBinary1', b1[i]))
+                batch.add('nr.beta2 ' + ' '.join(f2b(v) for v in (d['a'], a0, xa, xb, D[i, 0], D[i, 1], Rc[i])), mk('betaBinary2', b2[i]))
+                batch.add('nr.beta2 ' + ' '.join(f2b(v) for v in (d['a'], a0, fl(xan), fl(xbn), D[i, 0], D[i, 1], Rc[i])), mk('betaBinary2 (interfacial composition from therm)', b2n[i]))
+                batch.add('nr.betam ' + ' '.join(f2b(v) for v in (d['a'], a0, imp, Rc[i])), mk('betaMulti', bm[i]))
+                if math.isfinite(tau[i]):
+                    batch.add('nr.tau ' + ' '.join(f2b(v) for v in (matrix.theta, beta[i], Zt[i])), mk('incubationTime', tau[i]))
 
-            def cbr(t, case=case, w1=float(nr1[i]), wi=float(nri[i])):
-                got = t.flts()
-                if not close(w1, got[0], 1e-9) or not close(wi, got[1], 1e-9):
-                    res.disagree('nucleationRate (finite time, steady state)', case, [w1, wi], got)
-            batch.add('nr.rate ' + ' '.join(f2b(v) for v in (kB, Z[i], beta[i], G[i], T[i], tauv[i], t1)), cbr)
-            batch.add('nr.radius ' + ' '.join(f2b(v) for v in (kB, d['gamma'], T[i], Rc[i])), mk('nucleationRadius', rad[i]))
-            # ---- direct oracle
-            vals = dict(Z=Z[i], beta1=b1[i], beta2=b2[i], betaMulti=bm[i], rate=nr1[i], steady=nri[i])
-            for nm, v in vals.items():
-                if not math.isfinite(v) or v < 0:
-                    res.violate('chain-%s-negative-or-not-finite' % nm, '%s is negative or not finite for valid parameters' % nm, case, float(v), '>= 0, finite')
-            if Rc[i] != 0 and d['c'] > 0 and not (Z[i] > 0 and b1[i] > 0 and b2[i] > 0):
-                res.violate('chain-not-positive', 'Zeldovich factor / impingement rate not positive at a non-zero critical radius', case, [float(Z[i]), float(b1[i]), float(b2[i])], '> 0')
-            if Rc[i] == 0 and (Z[i] != 0 or b1[i] != 0 or b2[i] != 0 or bm[i] != 0):
-                res.violate('chain-nonzero-at-R0', 'Z/beta not zero at zero critical radius', case)
-            if Zt[i] != 0 and beta[i] > 0 and not (math.isfinite(tau[i]) and tau[i] > 0):
-                res.violate('chain-tau', 'incubation time not positive/finite under the guards', case, float(tau[i]), '> 0')
-            if G[i] == 0 and (nr1[i] != 0 or nri[i] != 0):
-                res.violate('chain-rate-nonzero-at-G0', 'nucleation rate not zero for zero barrier', case, [float(nr1[i]), float(nri[i])], 0)
-            if nri[i] > 0:
-                f1, f2 = nr1[i] / nri[i], nr2[i] / nri[i]
-                if not (0 <= f1 <= 1 + 1e-12 and 0 <= f2 <= 1 + 1e-12):
-                    res.violate('incubation-factor-range', 'incubation factor outside [0,1]', case, [f1, f2], '[0,1]')
-                if f1 > f2 * (1 + 1e-12):
-                    res.violate('incubation-factor-not-increasing', 'incubation factor decreases with time', case, [f1, f2], 'non-decreasing in t')
+                def cbr(t, case=case, w1=float(nr1[i]), wi=float(nri[i])):
+                    got = t.flts()
+                    if not close(w1, got[0], 1e-9) or not close(wi, got[1], 1e-9):
+                        res.disagree('nucleationRate (finite time, steady state)', case, [w1, wi], got)
+                batch.add('nr.rate ' + ' '.join(f2b(v) for v in (kB, Z[i], beta[i], G[i], T[i], tauv[i], t1)), cbr)
+                batch.add('nr.radius ' + ' '.join(f2b(v) for v in (kB, d['gamma'], T[i], Rc[i])), mk('nucleationRadius', rad[i]))
+                # ---- direct oracle
+                vals = dict(Z=Z[i], beta1=b1[i], beta2=b2[i], betaMulti=bm[i], rate=nr1[i], steady=nri[i])
+                for nm, v in vals.items():
+                    if not math.isfinite(v) or v < 0:
+                        res.violate('chain-%s-negative-or-not-finite' % nm, '%s is negative or not finite for valid parameters' % nm, case, float(v), '>= 0, finite')
+                if Rc[i] != 0 and d['c'] > 0 and not (Z[i] > 0 and b1[i] > 0 and b2[i] > 0):
+                    res.violate('chain-not-positive', 'Zeldovich factor / impingement rate not positive at a non-zero critical radius', case, [float(Z[i]), float(b1[i]), float(b2[i])], '> 0')
+                if Rc[i] == 0 and (Z[i] != 0 or b1[i] != 0 or b2[i] != 0 or bm[i] != 0):
+                    res.violate('chain-nonzero-at-R0', 'Z/beta not zero at zero critical radius', case)
+                if Zt[i] != 0 and beta[i] > 0 and not (math.isfinite(tau[i]) and tau[i] > 0):
+                    res.violate('chain-tau', 'incubation time not positive/finite under the guards', case, float(tau[i]), '> 0')
+                if G[i] == 0 and (nr1[i] != 0 or nri[i] != 0):
+                    res.violate('chain-rate-nonzero-at-G0', 'nucleation rate not zero for zero barrier', case, [float(nr1[i]), float(nri[i])], 0)
+                if nri[i] > 0:
+                    f1, f2 = nr1[i] / nri[i], nr2[i] / nri[i]
+                    if not (0 <= f1 <= 1 + 1e-12 and 0 <= f2 <= 1 + 1e-12):
+                        res.violate('incubation-factor-range', 'incubation factor outside [0,1]', case, [f1, f2], '[0,1]')
+                    if f1 > f2 * (1 + 1e-12):
+                        res.violate('incubation-factor-not-increasing', 'incubation factor decreases with time', case, [f1, f2], 'non-decreasing in t')
         # ---- steady-state rate vs driving force at fixed T, x, D (real chain barrier -> Z -> beta -> rate)
-        T0, x0 = float(T[0]), float(x[0])
-        dGs = np.sort(np.array([rand_dG(rng) for _ in range(max(6, n_pts))]))
-        with np.errstate(all='ignore'), warnings.catch_warnings():
-            warnings.simplefilter('ignore')
-            Rs, Gs = R.nucleationBarrier(dGs, prec)
-            Rs, Gs = np.atleast_1d(Rs), np.atleast_1d(Gs)
-            Tn, xn = T0 * np.ones(len(dGs)), x0 * np.ones(len(dGs))
-            Zs = np.atleast_1d(R.zeldovich(Tn, Rs, prec))
-            bfun = rng.choice([1, 2])
-            bs = np.atleast_1d(R.betaBinary1(therm, xn, Tn, Rs, matrix, prec) if bfun == 1 else R.betaBinary2(therm, xn, Tn, Rs, matrix, prec, xEqAlpha=xa, xEqBeta=xb))
-            taus = np.atleast_1d(R.incubationTime(bs, Zs, matrix))
-            rates = np.atleast_1d(R.nucleationRate(Zs, bs, Gs, Tn, np.where(np.isfinite(taus), taus, 0.0)))
-        isGB = KMAX[site] < math.inf
-        for j in range(len(dGs) - 1):
-            case = dict(base, kind='steady', T=T0, x=x0, dG1=float(dGs[j]), dG2=float(dGs[j + 1]), beta=bfun)
-            res.case(('steady', site, d['gamma'], d['k'], T0, float(dGs[j]), float(dGs[j + 1])), dGs[j + 1] > 0)
-            if dGs[j] <= 0 and rates[j] != 0:
-                res.violate('rate-nonzero-at-nonpositive-dG', 'steady-state rate not zero for dG <= 0', case, float(rates[j]), 0)
-            if rates[j + 1] < rates[j] * (1 - 1e-9):
-                if isGB and dGs[j + 1] * d['Rmin'] >= 3 * d['gamma'] * (1 - 1e-12):
-                    res.violate('gcrit-negative-gb-rmin', 'grain-boundary site types: Gcrit <= 0 when dG*Rmin >= 3*gamma (rate guard Gcrit != 0 / barrier at the clamped radius)', case, [float(rates[j]), float(rates[j + 1])], 'non-decreasing')
-                else:
-                    res.violate('steady-rate-decreases-with-dG', 'steady-state nucleation rate decreases with driving force at fixed T', case, [float(rates[j]), float(rates[j + 1])], 'non-decreasing')
-            zb = Zs * bs
-            if Rs[j] != 0 and Rs[j + 1] != 0 and not close(zb[j], zb[j + 1], 1e-9):
-                res.violate('Zbeta-depends-on-Rcrit', 'Z*beta changes with the critical radius', case, [float(zb[j]), float(zb[j + 1])], 'equal')
+        sinfo = dict(base, kind='steady')
+        with Guard(res, site, sinfo, where='steady-state chain barrier -> Z -> beta -> rate on an array of driving forces'):
+            T0, x0 = float(T[0]), float(x[0])
+            dGs = np.sort(np.array([rand_dG(rng) for _ in range(max(6, n_pts))]))
+            sinfo.update(T=float(T[0]), x=float(x[0]), dGs=dGs.tolist())
+            with np.errstate(all='ignore'), warnings.catch_warnings():
+                warnings.simplefilter('ignore')
+                Rs, Gs = R.nucleationBarrier(dGs, prec)
+                Rs, Gs = np.atleast_1d(Rs), np.atleast_1d(Gs)
+                Tn, xn = T0 * np.ones(len(dGs)), x0 * np.ones(len(dGs))
+                Zs = np.atleast_1d(R.zeldovich(Tn, Rs, prec))
+                bfun = rng.choice([1, 2])
+                bs = np.atleast_1d(R.betaBinary1(therm, xn, Tn, Rs, matrix, prec) if bfun == 1 else R.betaBinary2(therm, xn, Tn, Rs, matrix, prec, xEqAlpha=xa, xEqBeta=xb))
+                taus = np.atleast_1d(R.incubationTime(bs, Zs, matrix))
+                rates = np.atleast_1d(R.nucleationRate(Zs, bs, Gs, Tn, np.where(np.isfinite(taus), taus, 0.0)))
+            isGB = KMAX[site] < math.inf
+            for j in range(len(dGs) - 1):
+                case = dict(base, kind='steady', T=T0, x=x0, dG1=float(dGs[j]), dG2=float(dGs[j + 1]), beta=bfun)
+                res.case(('steady', site, d['gamma'], d['k'], T0, float(dGs[j]), float(dGs[j + 1])), dGs[j + 1] > 0)
+                if dGs[j] <= 0 and rates[j] != 0:
+                    res.violate('rate-nonzero-at-nonpositive-dG', 'steady-state rate not zero for dG <= 0', case, float(rates[j]), 0)
+                if rates[j + 1] < rates[j] * (1 - 1e-9):
+                    if isGB and dGs[j + 1] * d['Rmin'] >= 3 * d['gamma'] * (1 - 1e-12):
+                        res.violate('gcrit-negative-gb-rmin', 'grain-boundary site types: Gcrit <= 0 when dG*Rmin >= 3*gamma (rate guard Gcrit != 0 / barrier at the clamped radius)', case, [float(rates[j]), float(rates[j + 1])], 'non-decreasing')
+                    else:
+                        res.violate('steady-rate-decreases-with-dG', 'steady-state nucleation rate decreases with driving force at fixed T', case, [float(rates[j]), float(rates[j + 1])], 'non-decreasing')
+                zb = Zs * bs
+                if Rs[j] != 0 and Rs[j + 1] != 0 and not close(zb[j], zb[j + 1], 1e-9):
+                    res.violate('Zbeta-depends-on-Rcrit', 'Z*beta changes with the critical radius', case, [float(zb[j]), float(zb[j + 1])], 'equal')
 
 
 def check_tauni(ctx, res, batch, R, n_cases):
@@ -717,42 +800,45 @@ def check_tauni(ctx, res, batch, R, n_cases):
         from kawin.precipitation import MatrixParameters
     rng = ctx.rng
     for _ in range(n_cases):
-        m = rng.choice([1, 1, 2, 3, 5, 8, 13])
-        matrix = MatrixParameters(['B'])
-        matrix.theta = rng.choice([2, 2, 1.0])
-        dts = [10 ** rng.uniform(-2, 2) for _ in range(m)]
-        t0 = rng.choice([0.0, rng.uniform(0, 100)])
-        times = np.array([t0 + sum(dts[:i]) for i in range(m)])
-        kind = rng.choice(['const', 'rise', 'zero-then-pos', 'random'])
-        scale = 10 ** rng.uniform(-3, 3)
-        if kind == 'const':
-            betas = scale * np.ones(m)
-        elif kind == 'rise':
-            betas = scale * np.linspace(0.1, 1, m)
-        elif kind == 'zero-then-pos':
-            betas = scale * (np.arange(m) >= m // 2)
-        else:
-            betas = scale * np.array([rng.random() for _ in range(m)])
-        temps = np.array([rng.uniform(600, 900) for _ in range(m)])
-        Z = 10 ** rng.uniform(-2.5, -0.5)
-        currBeta = scale * rng.uniform(0.1, 2)
-        currTime = float(times[-1] + 10 ** rng.uniform(-2, 2))
-        currTemp = rng.uniform(600, 900)
-        # choose theta*Z^2 scale so that the crossing happens inside / outside the history
-        with np.errstate(all='ignore'), warnings.catch_warnings():
-            warnings.simplefilter('ignore')
-            tau = float(R.incubationTimeNonIsothermal(np.squeeze(np.array(Z)), currBeta, currTime, currTemp, betas, times, temps, matrix))
-        case = dict(kind='tauni', m=m, times=times.tolist(), betas=betas.tolist(), temps=temps.tolist(), Z=Z, currBeta=currBeta, currTime=currTime, currTemp=currTemp, theta=matrix.theta)
-        res.case(('tauni', m, kind, Z, currBeta, currTime), m > 1)
-        res.count('tauni:m=%s' % ('1' if m == 1 else '>1'))
+        tinfo = {'kind': 'tauni'}
+        with Guard(res, 'history', tinfo, where='incubationTimeNonIsothermal'):
+            m = rng.choice([1, 1, 2, 3, 5, 8, 13])
+            matrix = MatrixParameters(['B'])
+            matrix.theta = rng.choice([2, 2, 1.0])
+            dts = [10 ** rng.uniform(-2, 2) for _ in range(m)]
+            t0 = rng.choice([0.0, rng.uniform(0, 100)])
+            times = np.array([t0 + sum(dts[:i]) for i in range(m)])
+            kind = rng.choice(['const', 'rise', 'zero-then-pos', 'random'])
+            scale = 10 ** rng.uniform(-3, 3)
+            if kind == 'const':
+                betas = scale * np.ones(m)
+            elif kind == 'rise':
+                betas = scale * np.linspace(0.1, 1, m)
+            elif kind == 'zero-then-pos':
+                betas = scale * (np.arange(m) >= m // 2)
+            else:
+                betas = scale * np.array([rng.random() for _ in range(m)])
+            temps = np.array([rng.uniform(600, 900) for _ in range(m)])
+            Z = 10 ** rng.uniform(-2.5, -0.5)
+            currBeta = scale * rng.uniform(0.1, 2)
+            currTime = float(times[-1] + 10 ** rng.uniform(-2, 2))
+            currTemp = rng.uniform(600, 900)
+            tinfo.update(m=m, times=times.tolist(), betas=betas.tolist(), temps=temps.tolist(), Z=Z, currBeta=currBeta, currTime=currTime, currTemp=currTemp, theta=matrix.theta)
+            # choose theta*Z^2 scale so that the crossing happens inside / outside the history
+            with np.errstate(all='ignore'), warnings.catch_warnings():
+                warnings.simplefilter('ignore')
+                tau = float(R.incubationTimeNonIsothermal(np.squeeze(np.array(Z)), currBeta, currTime, currTemp, betas, times, temps, matrix))
+            case = dict(kind='tauni', m=m, times=times.tolist(), betas=betas.tolist(), temps=temps.tolist(), Z=Z, currBeta=currBeta, currTime=currTime, currTemp=currTemp, theta=matrix.theta)
+            res.case(('tauni', m, kind, Z, currBeta, currTime), m > 1)
+            res.count('tauni:m=%s' % ('1' if m == 1 else '>1'))
 
-        def cb(t, case=case, tau=tau):
-            got = t.flt()
-            if not close(tau, got, 1e-9, 1e-9 * case['currTime']):
-                res.disagree('incubationTimeNonIsothermal', case, tau, got)
-        batch.add('nr.tauni %s %s %s %s' % (' '.join(f2b(v) for v in (matrix.theta, Z, currBeta, currTime, currTemp)), enc_list(betas), enc_list(times), enc_list(temps)), cb)
-        if not (math.isfinite(tau) and tau >= -1e-9 * currTime):
-            res.violate('tau-nonisothermal-negative', 'incubationTimeNonIsothermal is negative or not finite', case, tau, '>= 0')
+            def cb(t, case=case, tau=tau):
+                got = t.flt()
+                if not close(tau, got, 1e-9, 1e-9 * case['currTime']):
+                    res.disagree('incubationTimeNonIsothermal', case, tau, got)
+            batch.add('nr.tauni %s %s %s %s' % (' '.join(f2b(v) for v in (matrix.theta, Z, currBeta, currTime, currTemp)), enc_list(betas), enc_list(times), enc_list(temps)), cb)
+            if not (math.isfinite(tau) and tau >= -1e-9 * currTime):
+                res.violate('tau-nonisothermal-negative', 'incubationTimeNonIsothermal is negative or not finite', case, tau, '>= 0')
 
 
 # ---------------------------------------------------------------- cached factors: op sequences
@@ -771,8 +857,8 @@ def read_slot(o, slot):
     try:
         with np.errstate(all='ignore'):
             return fl(getattr(o, dict((c, p) for c, _, p in CACHES)[slot]))
-    except ValueError as e:
-        return classify(e)
+    except Exception as e:       # ValueError is the documented refusal; anything else is reported as its own class
+        return classify(e) if isinstance(e, ValueError) else 'err-other:%s:%s' % (type(e).__name__, str(e)[:60])
 
 
 def gen_ops(rng):
@@ -811,68 +897,73 @@ def check_ops(ctx, res, batch, N, n_seq):
     for _ in range(n_seq):
         site0, g0, e0, ops = gen_ops(ctx.rng)
         via_prec = ctx.rng.random() < 0.35
-        if via_prec:
-            site0, g0, e0 = 'disl', None, 0.3
-            prec = PrecipitateParameters('P')
-            o = prec.nucleation
-        else:
-            o = N.NucleationBarrierParameters(SITE_NAMES[site0], gamma=g0, gbEnergy=e0)
-        cur = dict(site=site0, gamma=g0, gbE=e0)
-        impl, toks = [], []
-        case = dict(kind='ops', site0=site0, gamma0=g0, gbE0=e0, ops=ops, via_prec=via_prec)
-        res.case(('ops', site0, g0, e0, tuple(ops), via_prec), any(op == 'g' for op, _ in ops[:-1]) and any(op != 'g' for op, _ in ops))
-        for op, v in ops:
-            res.count('op:' + op)
-            if op == 'G':
-                if via_prec:
-                    prec.gamma = v
-                else:
-                    o.gamma = v
-                cur['gamma'] = v; toks += ['G', enc_opt(v)]
-            elif op == 'E':
-                o.gbEnergy = v
-                cur['gbE'] = v; toks += ['E', enc_opt(v)]
-            elif op == 'D':
-                if ctx.rng.random() < 0.5:
-                    o.setNucleationType(SITE_NAMES[v])
-                else:
-                    o.description = cl[v]()
-                cur['site'] = v; toks += ['D', v]
+        oinfo = dict(kind='ops', site0=site0, gamma0=g0, gbE0=e0, ops=ops, via_prec=via_prec)
+        with Guard(res, 'ops', oinfo, where='NucleationBarrierParameters setter / getter sequence'):
+            if via_prec:
+                site0, g0, e0 = 'disl', None, 0.3
+                prec = PrecipitateParameters('P')
+                o = prec.nucleation
             else:
-                got = read_slot(o, v)
-                impl.append(got)
-                toks += ['g', v]
-                # direct oracle: the getter equals a fresh computation on the current parameters
-                fresh = read_slot(N.NucleationBarrierParameters(SITE_NAMES[cur['site']], gamma=cur['gamma'], gbEnergy=cur['gbE']), v)
-                same = (got == fresh) if isinstance(got, str) or isinstance(fresh, str) else close(got, fresh, 1e-13)
-                if not same:
-                    res.violate('cached-factor-stale:' + v, 'a cached factor does not follow an assignment of gamma / gbEnergy / description', dict(case, at=len(impl) - 1, current=dict(cur)), got, fresh)
-                if not isinstance(got, str) and v != 'gbk':
-                    kcur = cur['gbE'] / (2 * cur['gamma'])
-                    if kcur >= KMAX[cur['site']]:
-                        res.violate('factor-sentinel-at-limit', 'a factor getter returned a value (the -1 sentinel of the description) instead of raising: energy ratio at/above the limit',
-                                    dict(case, at=len(impl) - 1, current=dict(cur)), got, 'ValueError')
-                    elif cur['site'] in ('edge', 'corner') and 1 - kcur / KMAX[cur['site']] < 1e-9:
-                        res.near_tie_skipped += 1       # within rounding of the singular limit: 0/0-type quotient, value is noise (may be NaN)
-                    elif got < -geo_tol(cur['site'], kcur) or not math.isfinite(got):
-                        res.violate('factor-negative-from-getter', 'a factor getter returned a negative / non-finite value below the limit',
-                                    dict(case, at=len(impl) - 1, current=dict(cur)), got, '>= 0')
-                res.count('get:' + (got if isinstance(got, str) else 'value'))
-
-        def cb(t, case=case, impl=impl):
-            n = t.nat()
-            got = [t.tok() for _ in range(n)]
-            if n != len(impl):
-                res.disagree('op sequence: number of answers', case, len(impl), n); return
-            for i, (a, b) in enumerate(zip(impl, got)):
-                if isinstance(a, str):
-                    ok = a == b
+                o = N.NucleationBarrierParameters(SITE_NAMES[site0], gamma=g0, gbEnergy=e0)
+            cur = dict(site=site0, gamma=g0, gbE=e0)
+            oinfo.update(site0=site0, gamma0=g0, gbE0=e0)
+            impl, toks = [], []
+            case = dict(kind='ops', site0=site0, gamma0=g0, gbE0=e0, ops=ops, via_prec=via_prec)
+            res.case(('ops', site0, g0, e0, tuple(ops), via_prec), any(op == 'g' for op, _ in ops[:-1]) and any(op != 'g' for op, _ in ops))
+            for op, v in ops:
+                res.count('op:' + op)
+                if op == 'G':
+                    if via_prec:
+                        prec.gamma = v
+                    else:
+                        o.gamma = v
+                    cur['gamma'] = v; toks += ['G', enc_opt(v)]
+                elif op == 'E':
+                    o.gbEnergy = v
+                    cur['gbE'] = v; toks += ['E', enc_opt(v)]
+                elif op == 'D':
+                    if ctx.rng.random() < 0.5:
+                        o.setNucleationType(SITE_NAMES[v])
+                    else:
+                        o.description = cl[v]()
+                    cur['site'] = v; toks += ['D', v]
                 else:
-                    ok = not b.startswith('err') and close(a, vlib.b2f(b), 1e-9, GEO_ABS)
-                if not ok:
-                    res.disagree('cached-factor state machine, read #%d' % i, case, a, b if b.startswith('err') or b == 'nan' else vlib.b2f(b)); break
-        nops = len(ops)
-        batch.add('nbp.ops %s %s %s %d %s' % (site0, enc_opt(g0), enc_opt(e0), nops, ' '.join(toks)), cb)
+                    got = read_slot(o, v)
+                    impl.append(got)
+                    toks += ['g', v]
+                    # direct oracle: the getter equals a fresh computation on the current parameters
+                    fresh = read_slot(N.NucleationBarrierParameters(SITE_NAMES[cur['site']], gamma=cur['gamma'], gbEnergy=cur['gbE']), v)
+                    same = (got == fresh) if isinstance(got, str) or isinstance(fresh, str) else close(got, fresh, 1e-13)
+                    if not same:
+                        res.violate('cached-factor-stale:' + v, 'a cached factor does not follow an assignment of gamma / gbEnergy / description', dict(case, at=len(impl) - 1, current=dict(cur)), got, fresh)
+                    if not isinstance(got, str) and v != 'gbk' and isinstance(fresh, str):
+                        pass        # a value where the fresh object refuses (parameters unset / ratio too large): reported above as stale
+                    elif not isinstance(got, str) and v != 'gbk':
+                        kcur = cur['gbE'] / (2 * cur['gamma'])
+                        if kcur >= KMAX[cur['site']]:
+                            res.violate('factor-sentinel-at-limit', 'a factor getter returned a value (the -1 sentinel of the description) instead of raising: energy ratio at/above the limit',
+                                        dict(case, at=len(impl) - 1, current=dict(cur)), got, 'ValueError')
+                        elif cur['site'] in ('edge', 'corner') and 1 - kcur / KMAX[cur['site']] < 1e-9:
+                            res.near_tie_skipped += 1       # within rounding of the singular limit: 0/0-type quotient, value is noise (may be NaN)
+                        elif got < -geo_tol(cur['site'], kcur) or not math.isfinite(got):
+                            res.violate('factor-negative-from-getter', 'a factor getter returned a negative / non-finite value below the limit',
+                                        dict(case, at=len(impl) - 1, current=dict(cur)), got, '>= 0')
+                    res.count('get:' + (got if isinstance(got, str) else 'value'))
+
+            def cb(t, case=case, impl=impl):
+                n = t.nat()
+                got = [t.tok() for _ in range(n)]
+                if n != len(impl):
+                    res.disagree('op sequence: number of answers', case, len(impl), n); return
+                for i, (a, b) in enumerate(zip(impl, got)):
+                    if isinstance(a, str):
+                        ok = a == b
+                    else:
+                        ok = not b.startswith('err') and close(a, vlib.b2f(b), 1e-9, GEO_ABS)
+                    if not ok:
+                        res.disagree('cached-factor state machine, read #%d' % i, case, a, b if b.startswith('err') or b == 'nan' else vlib.b2f(b)); break
+            nops = len(ops)
+            batch.add('nbp.ops %s %s %s %d %s' % (site0, enc_opt(g0), enc_opt(e0), nops, ' '.join(toks)), cb)
 
 
 # ---------------------------------------------------------------- nucleation sites
@@ -886,59 +977,62 @@ def check_sites(ctx, res, batch, N, R, n_cases):
     rng = ctx.rng
     NA = float(R.AVOGADROS_NUMBER)
     for _ in range(n_cases):
-        nph = rng.choice([1, 1, 2, 3, 4])
-        matrix = MatrixParameters(['B'])
-        matrix.volume.setVolume(10 ** rng.uniform(-5.2, -4.8), 'VM', 4)
-        matrix.initComposition = 10 ** rng.uniform(-4, -1.5)
-        matrix.nucleationSites.setNucleationDensity(grainSize=10 ** rng.uniform(-1, 2), aspectRatio=rng.choice([1, 1, 2.5]), dislocationDensity=10 ** rng.uniform(11, 15))
-        ns = matrix.nucleationSites
-        cfg = [float(ns.bulkN0), float(ns.dislocationN0), float(ns.GBareaN0), float(ns.GBedgeN0), float(ns.GBcornerN0), NA, float(matrix.volume.Vm)]
-        precs, pbms, xs, descs = [], [], [], []
-        common = rng.choice(SITES)
-        for q in range(nph):
-            site = common if rng.random() < 0.6 else rng.choice(SITES)
-            prec, d = make_prec(ctx, N, site, shapes=False)
-            bins = rng.choice([1, 3, 10, 40])
-            pbm = PopulationBalanceModel(cMin=1e-10, cMax=10 ** rng.uniform(-8.5, -7), bins=bins)
-            target = {'bulk': cfg[0], 'disl': cfg[0], 'gb': cfg[2] / (NA / cfg[6]) ** (2 / 3) / 1e-17, 'edge': cfg[3] / (NA / cfg[6]) ** (1 / 3) / 1e-9, 'corner': cfg[4]}[site]
-            dens = rng.choice([0.0, 1e-3, 0.3, 1.0, 3.0]) * target / bins
-            x = dens * np.array([rng.choice([0.0, rng.random(), 1.0]) for _ in range(bins)])
-            precs.append(prec); pbms.append(pbm); xs.append(x); descs.append(d)
-        p = rng.randrange(nph)
-        parents = sorted(set(rng.randrange(nph) for _ in range(rng.choice([0, 0, 0, 1, 2]))))
-        for q in range(nph):
-            precs[q].parentPhases = list(parents) if q == p else []
-        slf = NS(precipitateParameters=precs, PBM=pbms, phases=['P%d' % q for q in range(nph)], matrixParameters=matrix)
-        with np.errstate(all='ignore'):
-            got = float(PrecipitateModel._calcNucleationSites(slf, 0.0, xs, p))
-        case = dict(kind='sites', sites=[d['site'] for d in descs], p=p, parents=parents, cfg=cfg, x=[x.tolist() for x in xs],
-                    r=[pb.PSDsize.tolist() for pb in pbms], gbRemoval=[d['b'] for d in descs], gbk=[d['k'] for d in descs])
-        res.case(('sites', tuple(case['sites']), p, tuple(parents), cfg[6], tuple(float(x.sum()) for x in xs)), any(x.sum() > 0 for x in xs))
-        res.count('sites:' + descs[p]['site'] + (':parents' if parents else ''))
-        res.count('sites:' + ('clamped-to-0' if got == 0 else 'positive'))
-        ph = []
-        for q in range(nph):
+        sinfo = {'kind': 'sites'}
+        with Guard(res, 'sites', sinfo, where='_calcNucleationSites on random populations'):
+            nph = rng.choice([1, 1, 2, 3, 4])
+            matrix = MatrixParameters(['B'])
+            matrix.volume.setVolume(10 ** rng.uniform(-5.2, -4.8), 'VM', 4)
+            matrix.initComposition = 10 ** rng.uniform(-4, -1.5)
+            matrix.nucleationSites.setNucleationDensity(grainSize=10 ** rng.uniform(-1, 2), aspectRatio=rng.choice([1, 1, 2.5]), dislocationDensity=10 ** rng.uniform(11, 15))
+            ns = matrix.nucleationSites
+            cfg = [float(ns.bulkN0), float(ns.dislocationN0), float(ns.GBareaN0), float(ns.GBedgeN0), float(ns.GBcornerN0), NA, float(matrix.volume.Vm)]
+            precs, pbms, xs, descs = [], [], [], []
+            common = rng.choice(SITES)
+            for q in range(nph):
+                site = common if rng.random() < 0.6 else rng.choice(SITES)
+                prec, d = make_prec(ctx, N, site, shapes=False)
+                bins = rng.choice([1, 3, 10, 40])
+                pbm = PopulationBalanceModel(cMin=1e-10, cMax=10 ** rng.uniform(-8.5, -7), bins=bins)
+                target = {'bulk': cfg[0], 'disl': cfg[0], 'gb': cfg[2] / (NA / cfg[6]) ** (2 / 3) / 1e-17, 'edge': cfg[3] / (NA / cfg[6]) ** (1 / 3) / 1e-9, 'corner': cfg[4]}[site]
+                dens = rng.choice([0.0, 1e-3, 0.3, 1.0, 3.0]) * target / bins
+                x = dens * np.array([rng.choice([0.0, rng.random(), 1.0]) for _ in range(bins)])
+                precs.append(prec); pbms.append(pbm); xs.append(x); descs.append(d)
+            p = rng.randrange(nph)
+            parents = sorted(set(rng.randrange(nph) for _ in range(rng.choice([0, 0, 0, 1, 2]))))
+            for q in range(nph):
+                precs[q].parentPhases = list(parents) if q == p else []
+            slf = NS(precipitateParameters=precs, PBM=pbms, phases=['P%d' % q for q in range(nph)], matrixParameters=matrix)
+            sinfo.update(sites=[d['site'] for d in descs], p=p, parents=parents, cfg=cfg, x=[x.tolist() for x in xs], gbk=[d['k'] for d in descs])
             with np.errstate(all='ignore'):
-                gk = fl(precs[q].nucleation.GBk)
-            ph.append('%s %s %s %s %s %s' % (descs[q]['site'], enc_list(xs[q]), enc_list(pbms[q].PSDsize), f2b(descs[q]['b']), f2b(gk), f2b(precs[q].volume.Vm)))
-        n0 = max(abs(v) for v in cfg[:5])
+                got = float(PrecipitateModel._calcNucleationSites(slf, 0.0, xs, p))
+            case = dict(kind='sites', sites=[d['site'] for d in descs], p=p, parents=parents, cfg=cfg, x=[x.tolist() for x in xs],
+                        r=[pb.PSDsize.tolist() for pb in pbms], gbRemoval=[d['b'] for d in descs], gbk=[d['k'] for d in descs])
+            res.case(('sites', tuple(case['sites']), p, tuple(parents), cfg[6], tuple(float(x.sum()) for x in xs)), any(x.sum() > 0 for x in xs))
+            res.count('sites:' + descs[p]['site'] + (':parents' if parents else ''))
+            res.count('sites:' + ('clamped-to-0' if got == 0 else 'positive'))
+            ph = []
+            for q in range(nph):
+                with np.errstate(all='ignore'):
+                    gk = fl(precs[q].nucleation.GBk)
+                ph.append('%s %s %s %s %s %s' % (descs[q]['site'], enc_list(xs[q]), enc_list(pbms[q].PSDsize), f2b(descs[q]['b']), f2b(gk), f2b(precs[q].volume.Vm)))
+            n0 = max(abs(v) for v in cfg[:5])
 
-        def cb(t, case=case, got=got, scale=cfg):
-            m = t.flt()
-            site = case['sites'][case['p']]
-            n0 = {'bulk': scale[0], 'disl': scale[0], 'gb': scale[2], 'edge': scale[3], 'corner': scale[4]}[site]
-            if not close(got, m, 1e-9, n0 + max(got, m)):
-                res.disagree('_calcNucleationSites', case, got, m)
-        batch.add('sites.calc %s %d %s %s %s' % (' '.join(f2b(v) for v in cfg), nph, ' '.join(ph), vlib.enc_ilist(parents), descs[p]['site']), cb)
-        # ---- direct oracle
-        if not (got >= 0 and math.isfinite(got)):
-            res.violate('sites-negative', 'number of available nucleation sites negative or not finite', case, got, '>= 0')
-        if not parents:
-            xs2 = [x * rng.uniform(1.0, 3.0) + (rng.random() < 0.5) * x.max() * rng.random() for x in xs]
-            with np.errstate(all='ignore'):
-                got2 = float(PrecipitateModel._calcNucleationSites(slf, 0.0, xs2, p))
-            if got2 > got * (1 + 1e-12) + 1e-9 * abs(got):
-                res.violate('sites-increase-with-population', 'available sites increase when the occupying populations grow', dict(case, x2=[x.tolist() for x in xs2]), [got, got2], 'non-increasing')
+            def cb(t, case=case, got=got, scale=cfg):
+                m = t.flt()
+                site = case['sites'][case['p']]
+                n0 = {'bulk': scale[0], 'disl': scale[0], 'gb': scale[2], 'edge': scale[3], 'corner': scale[4]}[site]
+                if not close(got, m, 1e-9, n0 + max(got, m)):
+                    res.disagree('_calcNucleationSites', case, got, m)
+            batch.add('sites.calc %s %d %s %s %s' % (' '.join(f2b(v) for v in cfg), nph, ' '.join(ph), vlib.enc_ilist(parents), descs[p]['site']), cb)
+            # ---- direct oracle
+            if not (got >= 0 and math.isfinite(got)):
+                res.violate('sites-negative', 'number of available nucleation sites negative or not finite', case, got, '>= 0')
+            if not parents:
+                xs2 = [x * rng.uniform(1.0, 3.0) + (rng.random() < 0.5) * x.max() * rng.random() for x in xs]
+                with np.errstate(all='ignore'):
+                    got2 = float(PrecipitateModel._calcNucleationSites(slf, 0.0, xs2, p))
+                if got2 > got * (1 + 1e-12) + 1e-9 * abs(got):
+                    res.violate('sites-increase-with-population', 'available sites increase when the occupying populations grow', dict(case, x2=[x.tolist() for x in xs2]), [got, got2], 'non-increasing')
 
 
 # ---------------------------------------------------------------- a real Al-Zr run with a temperature jump
@@ -957,10 +1051,6 @@ def alzr_therm():
         th.setDiffusivity(lambda T: 0.0768 * np.exp(-242000 / (8.314 * T)), 'FCC_A1')
         _THERM['alzr'] = th
     return _THERM['alzr']
-
-
-class _Stop(Exception):
-    pass
 
 
 def run_case(cfg):
@@ -1035,53 +1125,54 @@ def run_case(cfg):
 def check_run(ctx, res, batch, R, cfgs):
     kB, NA = float(R.BOLTZMANN_CONSTANT), float(R.AVOGADROS_NUMBER)
     for cfg in cfgs:
-        model, rec = run_case(cfg)
-        d = model.pData
-        prec = model.precipitateParameters[0]
-        with np.errstate(all='ignore'):
-            a, b, c = fl(prec.nucleation.areaFactor), fl(prec.nucleation.gbRemoval), fl(prec.nucleation.volumeFactor)
-        isGB = bool(prec.nucleation.description.isGrainBoundaryNucleation)
-        res.traces += 1
-        res.count('run:%s:%s:beta%d' % (cfg['site'], cfg['solver'], cfg['beta']))
-        res.extra.setdefault('runs', []).append(dict(cfg, slices=int(d.n + 1), slices_with_negative_dG=int(np.sum(d.drivingForce[:, 0] < 0))))
-        nneg = 0
-        for i in range(1, d.n + 1):
-            dG = float(d.drivingForce[i, 0])
-            sl = [float(v[i, 0]) for v in (d.Rcrit, d.Gcrit, d.impingement, d.nucRate, d.Rnuc)]
-            case = dict(cfg, kind='run', slice=i, time=float(d.time[i]), T=float(d.temperature[i]), dG=dG, slice_values=sl)
-            res.case(('run', tuple(sorted((k, str(v)) for k, v in cfg.items())), i), dG < 0 or sl[3] > 0)
-            res.count('run-slice:' + ('dG<0' if dG < 0 else 'dG>=0'))
-            # ---- direct oracle: the rate is zero for non-positive driving force, in the run
-            if dG <= 0:
-                nneg += 1
-                if sl[3] != 0 or sl[4] != 0:
-                    res.violate('run-rate-nonzero-at-negative-driving-force',
-                                'recorded slice has nucleation rate %.3g and nucleation radius %.3g with driving force %.3g (values of the previous slice kept by `continue` in _calcNucleationRate)' % (sl[3], sl[4], dG),
-                                case, [sl[3], sl[4]], [0, 0])
-                if sl[0] != 0 or sl[1] != 0 or sl[2] != 0:
-                    res.violate('run-barrier-nonzero-at-negative-driving-force', 'recorded Rcrit/Gcrit/impingement not zero with negative driving force', case, sl[:3], [0, 0, 0])
-            elif cfg['solver'] == 'euler' and (sl[0] < prec.Rmin or sl[1] < 0 or sl[3] < 0 or not all(math.isfinite(v) for v in sl)):
-                res.violate('run-slice-invalid', 'recorded Rcrit < Rmin, negative barrier/rate or non-finite value at positive driving force', case, sl, 'Rcrit >= Rmin, Gcrit >= 0, rate >= 0')
-            # ---- trace refinement of the per-phase step (Euler glue records the slice computed by the last call)
-            if cfg['solver'] != 'euler':
-                continue
-            prev = [float(v[i - 1, 0]) for v in (d.Rcrit, d.Gcrit, d.impingement, d.nucRate, d.Rnuc)]
-            dt = float(d.time[i]) if i - 1 == 0 else float(d.time[i - 1] - d.time[i - 2])
-            sites, tau = rec[i - 1]
-            tauNI = None if model.temperatureParameters._isIsothermal else tau
-            if sites is None:
-                sites = 0.0
-            args = [1.0, prec.gamma, a, b, c, prec.nucleation.gbEnergy, prec.Rmin, kB, NA, prec.volume.Vm, float(d.temperature[i]), model.matrixParameters.theta,
-                    float(d.time[i]), dt, model.constraints.minNucleateDensity, sites]
+        with Guard(res, cfg['site'], dict(cfg, kind='run'), where='Al-Zr run with a temperature jump'):
+            model, rec = run_case(cfg)
+            d = model.pData
+            prec = model.precipitateParameters[0]
+            with np.errstate(all='ignore'):
+                a, b, c = fl(prec.nucleation.areaFactor), fl(prec.nucleation.gbRemoval), fl(prec.nucleation.volumeFactor)
+            isGB = bool(prec.nucleation.description.isGrainBoundaryNucleation)
+            res.traces += 1
+            res.count('run:%s:%s:beta%d' % (cfg['site'], cfg['solver'], cfg['beta']))
+            res.extra.setdefault('runs', []).append(dict(cfg, slices=int(d.n + 1), slices_with_negative_dG=int(np.sum(d.drivingForce[:, 0] < 0))))
+            nneg = 0
+            for i in range(1, d.n + 1):
+                dG = float(d.drivingForce[i, 0])
+                sl = [float(v[i, 0]) for v in (d.Rcrit, d.Gcrit, d.impingement, d.nucRate, d.Rnuc)]
+                case = dict(cfg, kind='run', slice=i, time=float(d.time[i]), T=float(d.temperature[i]), dG=dG, slice_values=sl)
+                res.case(('run', tuple(sorted((k, str(v)) for k, v in cfg.items())), i), dG < 0 or sl[3] > 0)
+                res.count('run-slice:' + ('dG<0' if dG < 0 else 'dG>=0'))
+                # ---- direct oracle: the rate is zero for non-positive driving force, in the run
+                if dG <= 0:
+                    nneg += 1
+                    if sl[3] != 0 or sl[4] != 0:
+                        res.violate('run-rate-nonzero-at-negative-driving-force',
+                                    'recorded slice has nucleation rate %.3g and nucleation radius %.3g with driving force %.3g (values of the previous slice kept by `continue` in _calcNucleationRate)' % (sl[3], sl[4], dG),
+                                    case, [sl[3], sl[4]], [0, 0])
+                    if sl[0] != 0 or sl[1] != 0 or sl[2] != 0:
+                        res.violate('run-barrier-nonzero-at-negative-driving-force', 'recorded Rcrit/Gcrit/impingement not zero with negative driving force', case, sl[:3], [0, 0, 0])
+                elif cfg['solver'] == 'euler' and (sl[0] < prec.Rmin or sl[1] < 0 or sl[3] < 0 or not all(math.isfinite(v) for v in sl)):
+                    res.violate('run-slice-invalid', 'recorded Rcrit < Rmin, negative barrier/rate or non-finite value at positive driving force', case, sl, 'Rcrit >= Rmin, Gcrit >= 0, rate >= 0')
+                # ---- trace refinement of the per-phase step (Euler glue records the slice computed by the last call)
+                if cfg['solver'] != 'euler':
+                    continue
+                prev = [float(v[i - 1, 0]) for v in (d.Rcrit, d.Gcrit, d.impingement, d.nucRate, d.Rnuc)]
+                dt = float(d.time[i]) if i - 1 == 0 else float(d.time[i - 1] - d.time[i - 2])
+                sites, tau = rec[i - 1]
+                tauNI = None if model.temperatureParameters._isIsothermal else tau
+                if sites is None:
+                    sites = 0.0
+                args = [1.0, prec.gamma, a, b, c, prec.nucleation.gbEnergy, prec.Rmin, kB, NA, prec.volume.Vm, float(d.temperature[i]), model.matrixParameters.theta,
+                        float(d.time[i]), dt, model.constraints.minNucleateDensity, sites]
 
-            def cb(t, case=case, sl=sl):
-                fixed = t.flts(); stale = t.flts()
-                sc = [0, 0, 0, 0, 0]
-                if not all(close(x, y, 1e-8) for x, y in zip(sl, fixed)):
-                    res.disagree('_calcNucleationRate step (recorded slice vs model of the repaired code)', case, sl, fixed)
-            batch.add('step.nuc %s %s %s %s %s %s' % (vlib.enc_bool(isGB), ' '.join(f2b(v) for v in args), enc_opt(tauNI if tauNI is None or math.isfinite(tauNI) else 0.0),
-                                                    enc_list(prev), f2b(dG), f2b(sl[2])), cb)
-        res.count('run:slices-with-negative-dG', nneg)
+                def cb(t, case=case, sl=sl):
+                    fixed = t.flts(); stale = t.flts()
+                    sc = [0, 0, 0, 0, 0]
+                    if not all(close(x, y, 1e-8) for x, y in zip(sl, fixed)):
+                        res.disagree('_calcNucleationRate step (recorded slice vs model of the repaired code)', case, sl, fixed)
+                batch.add('step.nuc %s %s %s %s %s %s' % (vlib.enc_bool(isGB), ' '.join(f2b(v) for v in args), enc_opt(tauNI if tauNI is None or math.isfinite(tauNI) else 0.0),
+                                                        enc_list(prev), f2b(dG), f2b(sl[2])), cb)
+            res.count('run:slices-with-negative-dG', nneg)
 
 
 def run_configs(ctx, quick_only=False):
@@ -1114,9 +1205,12 @@ def corr(ctx, oracle_only=False, scale=1):
     import time
     timing = {}
 
+    del Guard.harness_errors[:]
+
     def timed(name, f, *a):
         t = time.time()
-        f(*a)
+        with Guard(res, name, {'kind': 'section', 'section': name}, where='section ' + name):
+            f(*a)
         timing[name] = round(time.time() - t, 2)
     timed('geometry', check_geometry, ctx, res, batch, N, q(120, 4000))
     timed('grid', check_grid, ctx, res, N, q(2000, 200000))
@@ -1130,6 +1224,10 @@ def corr(ctx, oracle_only=False, scale=1):
     timed('driver', batch.run, res, ctx.driver_ok and not oracle_only)
     res.extra['section_seconds'] = timing
     res.extra['driver_lines'] = len(batch.lines)
+    if Guard.harness_errors:
+        res.extra['harness_errors'] = [h[-600:] for h in Guard.harness_errors[:5]]
+        if not res.violations:
+            raise RuntimeError('%d harness error(s) and no violation found; first:\n%s' % (len(Guard.harness_errors), Guard.harness_errors[0]))
     return res
 
 
